@@ -32,6 +32,7 @@ open CaddyModel.C14
 #print axioms resume_reads_where_autosave_writes
 #print axioms resume_recovers_latest_push
 #print axioms caddyfile_persist_config
+#print axioms default_storage_root_reloaded
 -- the calculus everything above rests on
 #print axioms wp_sound
 #print axioms wpn_sound
